@@ -10,6 +10,8 @@ from .engine import VERIF, REPO, WORK
 DRIVERS = {
     # driver name -> (prelude file under /verif/replay, real sources to compile, include dirs)
     'arith': ('arith_prelude.h', ['smt/arith/rational.cpp', 'smt/arith/lin.cpp'], ['smt', 'smt/arith']),
+    'sat': ('sat_prelude.h', ['smt/sat_core.cpp', 'smt/clause.cpp', 'smt/constr.cpp', 'smt/theory.cpp', 'smt/sat_stack.cpp', 'smt/json/json.cpp'],
+            ['smt', 'smt/arith', 'smt/json']),
 }
 
 
@@ -26,7 +28,7 @@ def run(job, fail):
         f.write(spec['stanza'])
         f.write('\n  printf("RESULT reproduced=%d observed=[%s] required=[%s]\\n", ok ? 0 : 1, observed.c_str(), required.c_str());\n  return ok ? 3 : 0;\n}\n')
     exe = os.path.join(wd, 'replay')
-    cmd = ['g++', '-std=c++17', '-O0', '-g', '-fno-access-control', '-w', '-DSMT_EXPORT=', '-I', os.path.join(VERIF, 'replay'), '-I', os.path.join(VERIF, 'stubs'),
+    cmd = ['g++', '-std=c++17', '-O0', '-g', '-fno-access-control', '-w',  '-I', os.path.join(VERIF, 'replay'), '-I', os.path.join(VERIF, 'stubs'),
            '-I', os.path.join(VERIF, 'contracts')] + defs.split() + sum((['-I', os.path.join(REPO, i)] for i in incs), []) + [src] + [os.path.join(REPO, s) for s in srcs] + ['-o', exe]
     r = subprocess.run(cmd, stdout=subprocess.PIPE, stderr=subprocess.STDOUT)
     if r.returncode != 0:
